@@ -1,0 +1,43 @@
+//go:build verif
+
+package nasConvert
+
+// Contracts for the deductive check in /verif (comment-only; compiled only with -tags verif).
+// Functions of a property's scope without a block here are checked with the default thin contract
+// (requires true, ensures true): safety and termination only.
+
+// ---- C14: helpers that interpret UE-supplied contents never panic or hang ----
+
+//@ func SuciToStringWithError(buf) (suci, plmnId, err)
+//@   loop 0 invariant 8 <= i && i <= len(buf) && len(msinBytes) == i - 8
+//@   loop 0 decreases len(buf) - i
+//@ end
+
+//@ func PeiToStringWithError(buf) (s, err)
+//@   loop 0 invariant -1 <= rangeindex && rangeindex <= len(buf) - 2
+//@   loop 0 invariant len(tmpBytes) == rangeindex + 2
+//@   loop 0 decreases len(buf) - rangeindex
+//@ end
+
+//@ func RequestedNssaiToModels(nasNssai) (r, err)
+//@   requires nasNssai != nil
+//@   requires int(nasNssai.Len) == len(nasNssai.Buffer)
+//@   loop 0 invariant 0 <= offset
+//@   loop 0 decreases lengthOfBuf - offset
+//@ end
+
+//@ func SnssaiToModels(n) (r)
+//@   requires n != nil
+//@ end
+
+//@ func LadnToModels(buf) (dnnValues)
+//@   loop 0 invariant 0 <= bufOffset && bufOffset <= len(buf)
+//@   loop 0 decreases len(buf) - bufOffset
+//@ end
+
+//@ func (protocolConfigurationOptions *ProtocolConfigurationOptions) UnMarshal(data) (err)
+//@   loop 0 invariant 0 <= readingState && readingState <= 2
+//@   loop 0 invariant implies(readingState != 0, curContainer != nil)
+//@   loop 0 invariant numOfBytes <= len(data)
+//@   loop 0 decreases 4*numOfBytes + ite(readingState == 2, 1, 0)
+//@ end
